@@ -68,8 +68,31 @@ CHECKS = {
         "passes; dense LU in the harness is the exact answer.",
         "4/C04"),
     "C05": (False, EX, "", "", "", "4/C05"),
-    "C06": (False, EX, "", "", "", "4/C06"),
-    "C07": (False, EX, "", "", "", "4/C07"),
+    "C06": (
+        True, EX,
+        "complete enumeration of a (T_r, p_r, pseudocritical point) lattice, of the default table "
+        "range for a gravity x temperature lattice, of isotherm sweeps and of a Hall-Yarbrough lattice; "
+        "each returned Z substituted into an independently transcribed published EOS",
+        "Every lattice point (quick 1.3k points + 1.8k Hall-Yarbrough points + 3 sweeps of 300 steps; "
+        "thorough 30k + 43k + sweeps of 600) is evaluated by the library; root-ness (1e-6), low-pressure "
+        "limit, continuity against continuation-tracked reference roots, 'not a bound / not the guess', "
+        "Hall-Yarbrough termination (0.5 s alarm), finiteness and 5% agreement are checked at each.",
+        "Known finding K1 (first coefficient A1*A2/Tr) is classified numerically per point: only values "
+        "that are roots (1e-6) of the EOS with that single substitution are attributed to it.",
+        "4/C06"),
+    "C07": (
+        True, EX,
+        "complete enumeration of gas (gravity x temperature x contaminants x dryness x pressure), oil "
+        "(T x API x gravity x GOR x p/p_b) and water (T x p x salinity) lattices; relations between "
+        "library functions evaluated at every point",
+        "At every state point: rho_g = pM/(ZRT) with the library's Z, rho_g*B_g independent of pressure "
+        "(1e-11) and equal to the standard-condition mass content, c_g against a Richardson-extrapolated "
+        "central difference of the library's own density (1e-4), mu_g positive and strictly increasing "
+        "along each isotherm, rho_o*B_o - 0.0136 gamma_g R_s(p) independent of pressure, rho_w*B_w equal "
+        "to the brine density and independent of pressure.",
+        "Known finding K1 (c_g differentiates the published EOS, density follows the substituted one) "
+        "is classified numerically at each point; any other mismatch is reported.",
+        "4/C07"),
     "C08": (False, EX, "", "", "", "4/C08"),
     "C09": (False, EX, "", "", "", "4/C09"),
     "C10": (
